@@ -39,7 +39,8 @@ def required_cells(tier):
             "alias:include-through-file-link", "alias:once-header-under-two-names", "alias:forced-include",
             "link:unused-to-member", "link:to-outside", "link:to-excluded-member", "names-differing-in-case", "link:extension-of-another-language", "link:to-sibling-with-root-prefix", "alias:root-directory-through-link",
             "alias:dotdot-after-directory-link", "alias:once-header-forced-twice", "same-file-from-2-commands", "one-tree-per-inode", "cli:tree-links", "overlapping-directories", "alias:linked-translation-unit-named-by-bare-relative-name",
-            "alias:search-directory-named-by-I-with-redundant-segments-and-by-isystem"]
+            "alias:search-directory-named-by-I-with-redundant-segments-and-by-isystem",
+            "overlapping-directories:inner-alias-first", "identical-bytes-in-two-physical-files:coverage-export"]
 
 
 def dots(rng, rel):
@@ -281,6 +282,14 @@ def check_case(ctx, case, base, cls, do_cli=False):
         from codebasin import CodeBase, finder, report
         import io
         over_dirs = [aroot, os.path.join(aroot, "src"), aroot_given if aroot_given != aroot else os.path.join(aroot, "inc", "..")]
+        if len(ac["files"]) % 3 == 1 and not excl:
+            # an alias of an inner directory named BEFORE the directory that contains it (only without exclude patterns:
+            # a pattern is read relative to the first listed directory that holds the file)
+            inner_alias = os.path.join(ab, "src-by-link")
+            if not os.path.lexists(inner_alias):
+                os.symlink(os.path.join(os.path.realpath(aroot), "src"), inner_alias)
+            over_dirs = [inner_alias, os.path.join(aroot, "inc"), aroot]
+            cells.add("overlapping-directories:inner-alias-first")
         cb_o = CodeBase(*over_dirs, exclude_patterns=list(excl))
         st_o = finder.find(aroot, cb_o, forest.cbi_configuration(ac, ab))
         acc.hook("find")
@@ -398,6 +407,38 @@ def spelling_scenarios(ctx, base):
         acc.violated({"input": {"scenario": "spelling-N"}, "witness": {"files": files, "link": "work/link.c -> ../real/main.c", "problems": problems[:3]}}, cells=cells, cls="S")
     else:
         acc.held(cells=cells, cls="S", nontrivial={"scenario": "spelling-N"})
+    # ---- T  two different physical files with identical bytes, used differently: both are exported, each with its own lines
+    roott = os.path.realpath(os.path.join(d, "T"))
+    for sub in ("cpu", "gpu", "include"):
+        os.makedirs(os.path.join(roott, sub))
+    kern = "int k1;\n#ifdef FAST\nint fast;\n#else\nint slow;\n#endif\nint k2;\n"
+    filest = {"cpu/kernel.h": kern, "gpu/kernel.h": kern, "cpu/a.c": "#include \"kernel.h\"\nint a;\n", "gpu/b.c": "#include \"kernel.h\"\nint b;\n"}
+    for rel, text in filest.items():
+        with open(os.path.join(roott, rel), "w") as f:
+            f.write(text)
+    os.symlink("../cpu/kernel.h", os.path.join(roott, "include", "kernel.h"))
+    with open(os.path.join(roott, "db.json"), "w") as f:
+        json.dump([{"file": "cpu/a.c", "directory": roott, "arguments": ["gcc", "-DFAST", "-c", "cpu/a.c"]},
+                   {"file": "gpu/b.c", "directory": roott, "arguments": ["gcc", "-c", "gpu/b.c"]}], f)
+    problems = []
+    rc, out, err = cli.run("cbi-cov", ["compute", "-S", roott, "-o", os.path.join(roott, "cov.json"), os.path.join(roott, "db.json")], roott)
+    acc.hook("find")
+    if rc != 0:
+        problems.append({"kind": "cbi-cov failed", "stderr": err[-300:]})
+    else:
+        cov = {e["file"]: e for e in json.load(open(os.path.join(roott, "cov.json")))}
+        # (the directive lines 2, 4 and 6 of a chain that is reached belong to the platform)
+        want = {"cpu/kernel.h": ([1, 2, 3, 4, 6, 7], [5]), "gpu/kernel.h": ([1, 2, 4, 5, 6, 7], [3]), "cpu/a.c": ([1, 2], []), "gpu/b.c": ([1, 2], [])}
+        for rel, (u, un) in want.items():
+            e = cov.get(rel)
+            if e is None or sorted(e["used_lines"]) != u or sorted(e["unused_lines"]) != un:
+                problems.append({"kind": "coverage export of byte-identical files used differently", "file": rel, "expected": [u, un],
+                                 "observed": [sorted(e["used_lines"]), sorted(e["unused_lines"])] if e else None})
+    cells = {"identical-bytes-in-two-physical-files:coverage-export"}
+    if problems:
+        acc.violated({"input": {"scenario": "spelling-T"}, "witness": {"files": filest, "problems": problems[:3]}}, cells=cells, cls="S")
+    else:
+        acc.held(cells=cells, cls="S", nontrivial={"scenario": "spelling-T"})
     # ---- D
     rootd = os.path.realpath(os.path.join(d, "D"))
     for sub in ("inc", "other", "src"):
